@@ -29,9 +29,14 @@ TokCls  == {"empty", "lits", "near", "far", "long", "mixed"}
 \*            reaches the format's limit of 17 + 19*3 + 316*7 bits = 286 bytes.
 \*   alt258   length 258 has two spellings that zlib and compress/flate both decode:
 \*            symbol 285, or symbol 284 with extra bits 31 (227 + 31).
+\*   zerosplit  a run of zero code lengths may be written partly as "repeat the previous length"
+\*            (symbol 16) directly behind a 17/18 item or an explicit zero: the previous length
+\*            IS zero.  Encoders write zero runs with 17/18 only.
+\*   dup      a block may be, bit for bit, the block one or two places earlier once more (same
+\*            header, same tokens) - e.g. with a block of another type in between
 Blk(t, ls, ds, tk, rp, cr, fh, mh, sy, wc, a8) ==
   [type |-> t, lshape |-> ls, dshape |-> ds, toks |-> tk, repeat |-> rp, cross |-> cr,
-   fullhclen |-> fh, maxh |-> mh, sync |-> sy, worstcl |-> wc, alt258 |-> a8]
+   fullhclen |-> fh, maxh |-> mh, sync |-> sy, worstcl |-> wc, alt258 |-> a8, zerosplit |-> FALSE, dup |-> 0]
 
 HasMatches(tk) == tk \notin {"empty", "lits"}
 Stored == { Blk("stored", "flat", "flat", tk, FALSE, FALSE, FALSE, FALSE, sy, FALSE, FALSE) : tk \in {"empty", "lits"}, sy \in BOOLEAN }
@@ -48,7 +53,10 @@ Dyn    == { b \in { Blk("dyn", ls, ds, tk, rp, cr, fh, mh, sy, wc, a8) :
 \* The longest header the descriptor space can express (used by the harness to aim
 \* delivery schedules at the header staging buffer of the Reader).
 MaxHeader(b) == b.type = "dyn" /\ b.worstcl /\ ~b.repeat /\ b.maxh
-Blocks == Stored \cup Fixed \cup Dyn
+\* (the two latest dimensions are added on top of the product above)
+Dyn2   == { [b EXCEPT !.zerosplit = z] : b \in { d \in Dyn : d.repeat }, z \in {TRUE} } \cup Dyn
+Blocks == Stored \cup Fixed \cup Dyn2
+DupOf(b, d) == [b EXCEPT !.dup = d]
 
 \* fault kind -> block types it can be injected in
 FaultType ==
@@ -83,11 +91,18 @@ TypeAllowed(t) ==
 PickType == /\ stage = "type" /\ Len(blocks) < nblocks
             /\ \E t \in {"stored", "fixed", "dyn"} : TypeAllowed(t) /\ ptype' = t
             /\ stage' = "block" /\ UNCHANGED <<blocks, fault, want, nblocks>>
+\* (RandomElement: under -simulate every behaviour is a random draw anyway; enumerating the
+\* tens of thousands of successors of this step only to pick one made generation slow)
+ByType(t) == { b \in Blocks : b.type = t }
+DynBlocks == ByType("dyn")   FixedBlocks == ByType("fixed")   StoredBlocks == ByType("stored")
+OfType(t) == CASE t = "dyn" -> DynBlocks [] t = "fixed" -> FixedBlocks [] OTHER -> StoredBlocks
 PickBlock == /\ stage = "block"
-             /\ \E b \in Blocks :
-                   /\ b.type = ptype
-                   /\ (Last /\ want = "distBeyondOutput" => b.dshape # "none")
-                   /\ blocks' = Append(blocks, b)
+             /\ LET S == IF Last /\ want = "distBeyondOutput" THEN { b \in OfType(ptype) : b.dshape # "none" } ELSE OfType(ptype)
+                    b == RandomElement(S)
+                    \* a valid Huffman block may repeat the block one or two places earlier (of the same type)
+                    D == { d \in 0..2 : d > 0 => /\ Len(blocks) >= d /\ blocks[Len(blocks) + 1 - d].type = b.type
+                                                  /\ b.type # "stored" /\ ~(Last /\ want # "none") }
+                IN blocks' = Append(blocks, DupOf(b, RandomElement(D)))
              /\ stage' = "type" /\ UNCHANGED <<fault, want, ptype, nblocks>>
 Finish   == /\ stage = "type" /\ Len(blocks) = nblocks
             /\ fault' = IF want = "none" THEN NoFault ELSE [kind |-> want, block |-> nblocks - 1]
@@ -99,5 +114,5 @@ PrintDesc == stage = "done" =>
   PrintT("BEH " \o ToJson([blocks |-> blocks, fault |-> fault, verdict |-> Verdict]))
 
 \* sanity of the alphabet
-TypeOK == \A i \in 1..Len(blocks) : blocks[i] \in Blocks
+TypeOK == \A i \in 1..Len(blocks) : DupOf(blocks[i], 0) \in Blocks
 =============================================================================
